@@ -261,12 +261,16 @@ PROPS["C15"] = {
     "outside": "the local SQLite queue (uniqueness of waiting URLs, lq delivery); the HQ finisher/consumer chains; HQ websocket; real network failures (natively the replay uses an httptest stand-in)",
     "assumptions": COMMON_ASSUME + ["gocrawlhq.Client.Add/Delete either deliver the whole batch or fail as a whole, per a fault sequence", "time.Sleep returns; tickers fire at most the granted number of times"],
     "stub_pkgs": DEFAULT_STUBS + [STATS],
+    "init_pkgs": DEFAULT_INIT + ["database/sql"],
     "harnesses": [
         {"pkg": HQ, "func": "VerifH_C15_hops_roundtrip", "covers": ["zero-hops", "some-hops"]},
         {"pkg": HQ, "func": "VerifH_C15_producer", "replay_tries": 2, "covers": ["hq-failed-first", "timer-flush", "outlink-arrives-during-retry", "stopped"]},
         {"pkg": HQ, "func": "VerifH_C15_finisher", "replay_tries": 2, "replay_timeout_s": 40, "covers": ["hq-failed-first", "hq-unanswered", "timer-flush", "stopped"]},
         {"pkg": HQ, "func": "VerifH_C15_finisher3", "thorough_only": True, "replay_tries": 2, "replay_timeout_s": 40, "opts": {"max_wall_s": 1800}, "covers": ["hq-failed-first", "hq-unanswered", "timer-flush", "stopped"]},
         {"pkg": HQ, "func": "VerifH_C15_producer_timeout", "replay_tries": 1, "replay_timeout_s": 60, "covers": ["hq-failed-first", "timer-flush", "stopped"]},
+        {"pkg": "internal/pkg/source/lq", "func": "VerifH_C15_lq", "replay_tries": 2, "replay_timeout_s": 60,
+         "opts": {"sleep_env": True, "map_order_all": False, "max_steps": 20000000, "max_wall_s": 900, "no_preempt": True},
+         "covers": ["duplicate-outlink", "round-trip", "stopped"]},
     ],
 }
 
@@ -331,6 +335,9 @@ LQ_MODELS.update({
     "(*" + SQLC + ".Queries).DoneURL": VM + "LQDoneURL", "(*" + SQLC + ".Queries).DeleteURL": VM + "LQDeleteURL",
     "(*" + SQLC + ".Queries).AddURL": VM + "LQAddURL", "(*" + SQLC + ".Queries).ResetClaimedURLs": VM + "LQResetClaimedURLs",
 })
+for _h in PROPS["C15"]["harnesses"]:
+    if _h["func"] == "VerifH_C15_lq":
+        _h["models"] = LQ_MODELS
 PROPS["C04"] = {
     "technique": 'bounded model checking of go/ssa under an explicit scheduler; the SQLite file is a table model with the contract of query.sql; stop/kill point and schedule are decision variables',
     "level": "model_checking",
@@ -338,7 +345,7 @@ PROPS["C04"] = {
                    "the database is a table model of the six statements of query.sql with transactions on the single connection (the native replay uses a real SQLite file); "
                    "the job is stopped gracefully (order of controler.stopPipeline) or killed when an arbitrary subset of the URLs has been handed out / finished, then started again on the same database; "
                    "every URL not reported finished must be handed out again, exactly once.",
-    "bounds": "2 URLs waiting (thorough: 2-3); consumer batch (workers) 1-2; reactor tokens 1-2; 0..n URLs handed out before the stop, each finished or in flight; acknowledgement timer fired or not; graceful stop or kill; context switches at blocking operations only (no preemption); the outlink producer of the queue is not started",
+    "bounds": "2 URLs waiting (thorough: 2-3), the first of which may be a row that is not a request URI; consumer batch (workers) 1-2; reactor tokens 1-2; 0..n URLs handed out before the stop, each finished or in flight; acknowledgement timer fired or not; graceful stop or kill; context switches at blocking operations only (no preemption); the outlink producer of the queue is not started",
     "outside": "the WARC half of the statement (finished implies captured; readable record by record): needs the WARC library and a file system; a kill in the middle of an SQLite commit (SQLite's own atomicity); "
                "seeds given on the command line (they are never in the queue); a second process on the same job",
     "assumptions": COMMON_ASSUME + ["contract of the SQL layer as stated in verifmodel/lqdb.go (validated by the native replay of cover witnesses and counterexamples against real SQLite)",
@@ -349,7 +356,7 @@ PROPS["C04"] = {
     "stub_pkgs": DEFAULT_STUBS + [STATS],
     "harnesses": [
         {"pkg": LQ, "func": "VerifH_C04_resume", "replay_tries": 3, "replay_timeout_s": 60, "opts": {"sleep_env": True, "map_order_all": False, "max_steps": 20000000, "max_wall_s": 900, "no_preempt": True},
-         "covers": ["in-flight-at-stop", "finished-before-stop", "killed", "stopped-gracefully", "unfinished-url", "second-run-stopped"]},
+         "covers": ["in-flight-at-stop", "finished-before-stop", "killed", "stopped-gracefully", "unfinished-url", "second-run-stopped", "unparsable-row"]},
         {"pkg": LQ, "func": "VerifH_C04_resume3", "thorough_only": True, "replay_tries": 3, "replay_timeout_s": 60, "opts": {"sleep_env": True, "map_order_all": False, "max_steps": 20000000, "max_wall_s": 1800, "no_preempt": True},
          "covers": ["in-flight-at-stop", "finished-before-stop", "killed", "stopped-gracefully", "unfinished-url", "second-run-stopped"]},
     ],
@@ -436,6 +443,7 @@ PROPS["C02"] = {
         {"pkg": "internal/pkg/archiver/discard", "func": "VerifH_C02_discard_policy", "covers": ["discarded", "kept", "cloudflare-challenge"]},
         {"pkg": AR, "func": "VerifH_C02_process_body", "opts": {"max_steps": 50000000, "unwind": 70000}, "covers": ["body-ok", "body-error", "spooled", "handed-to-postprocessing"]},
         {"pkg": AR, "func": "VerifH_C02_archive", "opts": {"max_steps": 50000000, "unwind": 70000}, "covers": ["retries-exhausted", "archived", "sync-write-awaited"]},
+        {"pkg": AR, "func": "VerifH_C02_archive_assets", "replay_tries": 3, "opts": {"max_steps": 50000000, "unwind": 70000}, "covers": ["sync-write-awaited", "two-assets"]},
     ],
 }
 
